@@ -16,7 +16,25 @@
 //     -> A: i2= i3= eq2=<v==v2> eq3=<v==v3> eqd=<view(a)==view(b)> a=<hex after the writes> rd=<hex read through v> | C: eq2= eq3= eqd= a= rd=
 //   img recreate <T> <w> <h> <s> <w2> <h2> <how>      how = xy: recreate(w2,h2);  pt: recreate(point);  al: recreate(w2,h2,16)
 //     -> A: i= w= h= nc= vw= vh= | C: w= h= nc=
+//   img vassign <T> <T0> <w> <h> <s> <how>
+//        v = view(a) (a holds T); vc holds a view of a T0 image first; then
+//        how = conc: vc = (concrete view of a)  [any_image_view::operator=(View const&)]
+//        how = ctor: vc2(concrete view of a) constructed from the concrete view, vc = vc2
+//        how = subset: vc = LS-typed any_image_view of a  [operator=(any_image_view<OtherViews...> const&); T in g8, rgb8]
+//        then pixel (0,0) toggled through vc
+//     -> A: i= eq=<v==vc> w= h= nc= sz= a=<hex of a after the write> rd=<hex read through vc> | C: eq= w= h= nc= sz= a= rd=
+//   img applyop <T> <T0> <w> <h> <s>      the deprecated apply_operation (apply_operation.hpp), unary and binary
+//     -> A: w= h= sz= n12=<10*nc(T)+nc(T0)> | C: w= h= sz= n12=
+//   img default                         default-constructed any_image / any_image_view: the first alternative, empty
+//     -> A: i= w= h= nc= vi= vw= vh= vnc= vsz= | C: w= h= nc= vw= vh= vnc= vsz=
+//   img atc <T>                         dynamic_at_c.hpp: at_c<list of num_channels of the alternatives, int>(index of the held alternative)
+//     -> A: n=<at_c(a.index())> nc=<a.num_channels()> | C: n=<num_channels of T> nc=<same>
 #include "c14.hpp"
+#include <boost/gil/extension/dynamic_image/apply_operation.hpp>
+#include <boost/gil/extension/dynamic_image/dynamic_at_c.hpp>
+#if defined(__GNUC__)
+#pragma GCC diagnostic ignored "-Wdeprecated-declarations"
+#endif
 using namespace c14;
 
 static std::string b01(bool b) { return b ? "1" : "0"; }
@@ -149,6 +167,91 @@ std::string img_recreate(std::string const& T, std::ptrdiff_t w, std::ptrdiff_t 
     return out;
 }
 
+std::string img_vassign(std::string const& T, std::string const& T0, std::ptrdiff_t w, std::ptrdiff_t h, uint64_t s, std::string const& how) {
+    std::string out = "bad-type";
+    with_type<L7>(T, [&](auto tc) { with_type<L7>(T0, [&](auto t0) {
+        using Img = typename decltype(tc)::type; using I0 = typename decltype(t0)::type; int d = info<Img>::depth;
+        using any_view_t = typename L7::view_t;
+        L7 a(make<Img>(w, h, s));
+        I0 other = make<I0>(2, 2, s + 1);
+        any_view_t v = gil::view(a);
+        any_view_t vc(gil::view(other));          // holds another alternative first
+        typename Img::view_t conc = gil::view(v2::get<Img>(a));
+        if (how == "conc") vc = conc;
+        else if (how == "ctor") { any_view_t vc2(conc); vc = vc2; }
+        else if (how == "subset") {
+#ifndef C14_LIST_B
+            if constexpr (std::is_same<Img, gil::gray8_image_t>::value || std::is_same<Img, gil::rgb8_image_t>::value) {
+                typename LS::view_t sub(conc); vc = sub;
+            }
+#else
+            if constexpr (false) {}
+#endif
+            else { out = "bad-op"; return; }
+        } else { out = "bad-op"; return; }
+        bool eq = (v == vc);
+        v2::visit([](auto const& x) { toggle_at(x, 0, 0); }, vc);
+        std::string A = "A: i=" + std::to_string(vc.index()) + " eq=" + b01(eq) + " w=" + std::to_string(vc.width()) + " h=" + std::to_string(vc.height()) +
+                        " nc=" + std::to_string(vc.num_channels()) + " sz=" + std::to_string(vc.size()) +
+                        " a=" + dump_any(gil::const_view(a), d) + " rd=" + dump_any(vc, d);
+        Img ca = make<Img>(w, h, s);
+        auto cv = gil::view(ca); decltype(cv) cvc; cvc = cv;
+        bool ceq = (cv == cvc);
+        toggle_at(cvc, 0, 0);
+        out = A + " | C: eq=" + b01(ceq) + " w=" + std::to_string(cvc.width()) + " h=" + std::to_string(cvc.height()) +
+              " nc=" + std::to_string(gil::num_channels<Img>::value) + " sz=" + std::to_string(cvc.size()) +
+              " a=" + dump(gil::const_view(ca), d) + " rd=" + dump(cvc, d);
+    }); });
+    return out;
+}
+
+struct nc_pair_fn {
+    using result_type = int;
+    template <typename V1, typename V2> int operator()(V1 const&, V2 const&) const { return 10 * int(gil::num_channels<V1>::value) + int(gil::num_channels<V2>::value); }
+};
+
+std::string img_applyop(std::string const& T, std::string const& T0, std::ptrdiff_t w, std::ptrdiff_t h, uint64_t s) {
+    std::string out = "bad-type";
+    with_type<L7>(T, [&](auto tc) { with_type<L7>(T0, [&](auto t0) {
+        using Img = typename decltype(tc)::type; using I0 = typename decltype(t0)::type;
+        L7 a(make<Img>(w, h, s)), b(make<I0>(2, 2, s + 1));
+        auto va = gil::view(a); auto vb = gil::view(b);
+        auto dims = gil::apply_operation(va, gil::detail::any_type_get_dimensions());
+        auto sz = gil::apply_operation(va, gil::detail::any_type_get_size());
+        int n12 = gil::apply_operation(va, vb, nc_pair_fn());
+        Img ci = make<Img>(w, h, s);
+        out = "A: w=" + std::to_string(dims.x) + " h=" + std::to_string(dims.y) + " sz=" + std::to_string(sz) + " n12=" + std::to_string(n12) +
+              " | C: w=" + std::to_string(ci.width()) + " h=" + std::to_string(ci.height()) + " sz=" + std::to_string(gil::view(ci).size()) +
+              " n12=" + std::to_string(10 * int(gil::num_channels<Img>::value) + int(gil::num_channels<I0>::value));
+    }); });
+    return out;
+}
+
+std::string img_default() {
+    using First = boost::mp11::mp_first<boost::mp11::mp_rename<L7, boost::mp11::mp_list>>;
+    L7 a; typename L7::view_t v;
+    First ci; typename First::view_t cv;
+    return "A: i=" + std::to_string(a.index()) + " w=" + std::to_string(a.width()) + " h=" + std::to_string(a.height()) + " nc=" + std::to_string(a.num_channels()) +
+           " vi=" + std::to_string(v.index()) + " vw=" + std::to_string(v.width()) + " vh=" + std::to_string(v.height()) + " vnc=" + std::to_string(v.num_channels()) + " vsz=" + std::to_string(v.size()) +
+           " | C: w=" + std::to_string(ci.width()) + " h=" + std::to_string(ci.height()) + " nc=" + std::to_string(gil::num_channels<First>::value) +
+           " vw=" + std::to_string(cv.width()) + " vh=" + std::to_string(cv.height()) + " vnc=" + std::to_string(gil::num_channels<First>::value) + " vsz=" + std::to_string(cv.size());
+}
+
+template <typename I> using nc_of = std::integral_constant<int, gil::num_channels<I>::value>;
+
+std::string img_atc(std::string const& T) {
+    std::string out = "bad-type";
+    using NCs = boost::mp11::mp_transform<nc_of, boost::mp11::mp_rename<L7, boost::mp11::mp_list>>;
+    with_type<L7>(T, [&](auto tc) {
+        using Img = typename decltype(tc)::type;
+        L7 a(make<Img>(1, 1, 1));
+        int n = gil::at_c<NCs, int>(a.index());
+        out = "A: n=" + std::to_string(n) + " nc=" + std::to_string(a.num_channels()) +
+              " | C: n=" + std::to_string(gil::num_channels<Img>::value) + " nc=" + std::to_string(gil::num_channels<Img>::value);
+    });
+    return out;
+}
+
 int main() {
     return hv::run([](std::string const& line) -> std::string {
         auto a = op_words(line);
@@ -159,6 +262,10 @@ int main() {
         if (a[1] == "assign" && a.size() == 11) return img_assign(a[2], a[3], N(4), N(5), N(6), N(7), hv::to_ull(a[8]), hv::to_ull(a[9]), a[10]);
         if (a[1] == "eq" && a.size() == 11) return img_eq(a[2], a[3], N(4), N(5), N(6), N(7), hv::to_ull(a[8]), hv::to_ull(a[9]), hv::to_ll(a[10]));
         if (a[1] == "vcopy" && a.size() == 7) return img_vcopy(a[2], a[3], N(4), N(5), hv::to_ull(a[6]));
+        if (a[1] == "default" && a.size() == 2) return img_default();
+        if (a[1] == "atc" && a.size() == 3) return img_atc(a[2]);
+        if (a[1] == "vassign" && a.size() == 8) return img_vassign(a[2], a[3], N(4), N(5), hv::to_ull(a[6]), a[7]);
+        if (a[1] == "applyop" && a.size() == 7) return img_applyop(a[2], a[3], N(4), N(5), hv::to_ull(a[6]));
         if (a[1] == "recreate" && a.size() == 9) return img_recreate(a[2], N(3), N(4), hv::to_ull(a[5]), N(6), N(7), a[8]);
         return "bad-op";
     });
